@@ -9,6 +9,7 @@ import (
 	"math"
 	"os"
 	"path"
+	"path/filepath"
 	"runtime/debug"
 	"slices"
 	"sync"
@@ -183,11 +184,24 @@ func generateInWatchMode(configArgs map[string]string) []string {
 	if packageInfo == nil {
 		return nil
 	}
-	var dirsToWatch []string
+	// Model files are read from subdirectories too, and watches are not recursive.
+	dirsToWatch := withSubdirectories(".")
 	for _, ref := range packageInfo.GetAllReferencedPackages() {
-		dirsToWatch = append(dirsToWatch, ref.PackageDir())
+		dirsToWatch = append(dirsToWatch, withSubdirectories(ref.PackageDir())...)
 	}
 	return dirsToWatch
+}
+
+// Returns dir and every directory below it
+func withSubdirectories(dir string) []string {
+	dirs := []string{dir}
+	filepath.Walk(dir, func(path string, info os.FileInfo, err error) error {
+		if err == nil && info.IsDir() && path != dir {
+			dirs = append(dirs, path)
+		}
+		return nil
+	})
+	return dirs
 }
 
 func WriteSuccessfulSummary(packageInfo *packaging.PackageInfo) {
